@@ -1,6 +1,10 @@
 """
 C15 - section outputs keep the screen equal to the stacked section contents.
 
+Sections may carry INDENTATION (ops `["create", n]`: created inside `with output.indent(n)`; `["indent", i, n, mode]`:
+`section.indent(n)` / `section.increment_indent(..)` from now on): a section shows its lines behind its indentation and a
+redraw of newer sections shows them as they are.
+
 Correspondence: real `SectionOutput` objects of ONE `BufferedIO` output (ANSI forced with
 `AnsiFormatter(forced=True)`, and plain), terminal width through `COLUMNS`; after every operation
 the bytes written, and `content` / `lines` of every section, are compared with the Lean model
@@ -38,9 +42,13 @@ LEVEL_TEXT = ("screen_refines is proved for EVERY history of create/write/overwr
               "character-level emulator with deferred wrap.")
 LEVEL_NOTE = ("Trusted: Lean kernel + propext/Quot.sound/Classical.choice; the hand-written section and terminal models "
               "(sampled by the correspondence, not verified against the source); the Python emulator; xterm/VT100 "
-              "deferred-wrap semantics; ONLCR on the tty. Scope: tab-free, tag-free lines, indentation 0, the sections "
+              "deferred-wrap semantics; ONLCR on the tty. Scope: tab-free, tag-free lines; indentation (inherited by a "
+              "section at creation, changed later) through the layer Model/SectionIndent.lean (screen_refines_indented, no "
+              "further hypothesis); the sections "
               "fit on the visible screen (CUU stops at the top row), nothing else writes to the stream in between.")
 LEAN_MODULES = ["Clikit.Props.C15"]
+# sections with indentation (Model/SectionIndent.lean): indent_simulates reduces every indented history to the base
+# history on the padded lines, screen_refines_indented is screen_refines for them
 REQUIRED_THEOREMS = ["Clikit.Props.C15.screen_refines", "Clikit.Props.C15.screen_refines_from",
                      "Clikit.Props.C15.contents_spec", "Clikit.Props.C15.screen_is_spec",
                      "Clikit.Props.C15.clearN_beyond", "Clikit.Props.C15.rows_of_line",
@@ -48,13 +56,22 @@ REQUIRED_THEOREMS = ["Clikit.Props.C15.screen_refines", "Clikit.Props.C15.screen
                      "Clikit.Props.C15.lex_emit_run", "Clikit.Props.C15.stream_refines",
                      "Clikit.Props.C15.codes_match_source", "Clikit.Props.C15.wf_decides",
                      "Clikit.Props.C15.stream_refines_dec", "Clikit.Props.C15.plain_no_esc_dec",
-                     "Clikit.Props.C15.clearN_beyond_reachable"]
+                     "Clikit.Props.C15.clearN_beyond_reachable", "Clikit.Props.C15.indent_simulates",
+                     "Clikit.Props.C15.screen_refines_indented", "Clikit.Props.C15.contents_spec_indented",
+                     "Clikit.Props.C15.indent_free_is_base"]
 RULE = ("sec cases: (a) EVERY operation sequence of exactly depth 4 (quick) / 6 (thorough; every shorter sequence is "
         "a prefix and is checked too, because all checks run after every operation) over up to 3 sections with "
         "create, write_line (1-2 lines), overwrite, clear(), clear(n) and line lengths 0 / below / at / above / twice the "
         "width (pools in POOLS: quick depth 4 'big' at widths 10 and 20, depth 5 'd6' at 10; thorough depth 6 'd6' at "
         "width 10 and 'small' at 20, depth 5 'mid' at 20, depth 4 'big' at 7), plain outputs at depth 3/4; (b) random histories of "
         "length <= 40 at widths 1,3,7,10,20 with lengths around 0, w, 2w, 3w, 1-3 lines per write, clear(n) with n in 0..5; "
+        "(c) SECTIONS WITH INDENTATION: every sequence again on sections created inside indentation scopes of the output "
+        "(profiles (2,0,3), (0,3,2), (3,2,0) for the 1st/2nd/3rd section; pools 'ind' / 'ind_s' with lengths that reach the "
+        "width only together with the indentation: quick depth 4 'ind' and depth 5 'ind_s' at width 10, plain depth 3; "
+        "thorough depth 5 'ind' twice, depth 6 'ind_s', depth 4 at width 7, plain depth 4; indentation BEYOND the width "
+        "with empty lines: pool 'ind_e' at width 3 on profiles (0,4,5) / (4,0,7), quick depth 4, thorough depth 5), and every third random history "
+        "creates its sections at indentation 0-4 and changes a section's indentation in the middle "
+        "(section.indent(n) / section.increment_indent(n)); "
         "term cases: random print/up/erase streams replayed on the Lean terminal and on the emulator. "
         "A sec case is non-trivial when at least one operation had to move the cursor up and erase (ANSI) or wrote "
         "at least two lines (plain); distinct = distinct (width, ansi, operation kinds, targets, line lengths, n)")
@@ -68,8 +85,10 @@ TRUSTED_BASE = [
     "math.ceil(len/width) in floating point equals the integer ceiling for the sizes that occur",
 ]
 ASSUMPTIONS = [
-    "content is tab-free and free of style tags; indentation 0 (scope of the model types, not a theorem hypothesis; a "
-    "generated line outside it would show as a byte disagreement). Free of ESC and of newlines inside a line: no longer "
+    "content is tab-free and free of style tags (scope of the model types, not a theorem hypothesis; a "
+    "generated line outside it would show as a byte disagreement). Indentation: a section shows every line behind the "
+    "indentation it had when the line was written, an empty line empty (D38 repaired: the recorded content is "
+    "indented exactly like the written text). Free of ESC and of newlines inside a line: no longer "
     "assumed - decided by the model on every case (wfB, compared with true)",
     "the rows of all sections fit on the visible screen (cursor-up is clamped at the top row of a real terminal)",
     "nothing else writes to the stream between section operations; the terminal has auto-wrap with deferred wrap",
@@ -212,12 +231,29 @@ POOLS = {
            "O": lambda w: [[3], [w + 3]], "N": [1]},
     "small": {"W": lambda w: [[3], [w], [w + 3], [2 * w, 0]],
               "O": lambda w: [[w + 3]], "N": [1]},
+    # for sections WITH INDENTATION (profiles below): lengths that stay below / reach / pass the width only together
+    # with an indentation of 2 or 3
+    "ind": {"W": lambda w: [[0], [3], [w - 3], [w - 2], [w + 3], [3, w - 2], [w - 3, 0]],
+            "O": lambda w: [[3], [w - 2]], "N": [1]},
+    "ind_s": {"W": lambda w: [[3], [w - 3], [w - 2], [w - 3, 0]],
+              "O": lambda w: [[w - 2]], "N": [1]},
+    # for an indentation BEYOND the width (D38): empty lines, alone and next to text
+    "ind_e": {"W": lambda w: [[0], [1], [w], [0, 2], [0, 0]],
+              "O": lambda w: [[0], [2]], "N": [1]},
 }
 
+# indentation of the 1st, 2nd, 3rd section created (inherited from the output: `with output.indent(n): output.section()`)
+PROFILES = [(2, 0, 3), (0, 3, 2), (3, 2, 0)]
+WIDE_PROFILES = [(0, 4, 5), (4, 0, 7)]       # at width 3: indentation beyond the width
 
-def _enumerate(depth, pool, w, ansi, max_sections=3):
-    """every valid operation sequence of exactly `depth` operations (the first one is a create)"""
+
+def _enumerate(depth, pool, w, ansi, max_sections=3, profile=None):
+    """every valid operation sequence of exactly `depth` operations (the first one is a create); with a `profile`
+    the k-th section is created inside an indentation scope of the output"""
     W, O, N = pool["W"](w), pool["O"](w), pool["N"]
+
+    def create(k):
+        return ["create", profile[k]] if profile else ["create"]
 
     def rec(prefix, k):
         d = len(prefix)
@@ -226,7 +262,7 @@ def _enumerate(depth, pool, w, ansi, max_sections=3):
             return
         choices = []
         if k < max_sections:
-            choices.append((["create"], k + 1))
+            choices.append((create(k), k + 1))
         for i in range(k):
             for ls in W:
                 choices.append((["write", i, _lines(d, ls)], k))
@@ -241,27 +277,38 @@ def _enumerate(depth, pool, w, ansi, max_sections=3):
                 yield c
             prefix.pop()
 
-    for c in rec([["create"]], 1):
+    for c in rec([create(0)], 1):
         yield c
 
 
 WIDTHS = [10, 20, 10, 20, 7, 3, 1]
 
 
-def _random_sec(rng, ansi, maxlen=40):
+INDENTS = [0, 0, 1, 2, 2, 3, 4]
+
+
+def _random_sec(rng, ansi, maxlen=40, indented=False):
+    """`indented`: sections are created inside indentation scopes of the output and change their own indentation
+    (section.indent(n) / section.increment_indent(n)) in the middle of the history"""
     w = rng.choice(WIDTHS)
     n = rng.randint(1, maxlen)
     lens = [0, 1, max(0, w - 1), w, w + 1, 2 * w - 1, 2 * w, 2 * w + 1, 3 * w, 3 * w + 2, rng.randint(0, 4 * w)]
-    ops, k = [["create"]], 1
+    if indented:
+        lens += [max(0, w - 2), max(0, w - 3), max(0, w - 4), max(0, 2 * w - 2)]
+    first = ["create", rng.choice(INDENTS)] if indented else ["create"]
+    ops, k = [first], 1
     seed = rng.randint(0, 1000)
     while len(ops) < n:
         x = rng.random()
         d = len(ops) + seed
         if x < 0.10 and k < 3:
-            ops.append(["create"])
+            ops.append(["create", rng.choice(INDENTS)] if indented else ["create"])
             k += 1
             continue
         i = rng.randrange(k)
+        if indented and x > 0.92:
+            ops.append(["indent", i, rng.choice(INDENTS), rng.choice(["set", "inc"])])
+            continue
         if x < 0.50:
             m = rng.choice([1, 1, 1, 2, 2, 3])
             ops.append(["write", i, _lines(d, [rng.choice(lens) for _ in range(m)])])
@@ -293,20 +340,29 @@ def _random_term(rng):
 def generate(tier, rng):
     if tier == "quick":
         plan = [(4, "big", 10, True), (4, "big", 20, True), (5, "d6", 10, True), (3, "big", 10, False)]
+        iplan = [(4, "ind", 10, True, PROFILES[0]), (5, "ind_s", 10, True, PROFILES[1]),
+                 (3, "ind", 10, False, PROFILES[0]), (4, "ind_e", 3, True, WIDE_PROFILES[0])]
         n_rand, n_plain, n_term = 4000, 600, 1500
     else:
         plan = [(6, "d6", 10, True), (5, "mid", 20, True), (4, "big", 7, True), (6, "small", 20, True),
                 (4, "big", 10, False)]
+        iplan = [(5, "ind", 10, True, PROFILES[0]), (5, "ind", 10, True, PROFILES[1]), (6, "ind_s", 10, True, PROFILES[2]),
+                 (4, "ind", 7, True, PROFILES[1]), (4, "ind", 10, False, PROFILES[0]),
+                 (5, "ind_e", 3, True, WIDE_PROFILES[0]), (5, "ind_e", 3, True, WIDE_PROFILES[1])]
         n_rand, n_plain, n_term = 40000, 6000, 15000
+    # sections with indentation (inherited from the output at creation): every sequence again, on an indentation profile
+    for depth, pool, w, ansi, profile in iplan:
+        for c in _enumerate(depth, POOLS[pool], w, ansi, profile=profile):
+            yield c
     for depth, pool, w, ansi in plan:
         for c in _enumerate(depth, POOLS[pool], w, ansi):
             yield c
     for _ in range(n_term):
         yield _random_term(rng)
-    for _ in range(n_plain):
-        yield _random_sec(rng, False)
+    for k in range(n_plain):
+        yield _random_sec(rng, False, indented=(k % 3 == 2))
     for k in range(n_rand):
-        c = _random_sec(rng, True)
+        c = _random_sec(rng, True, indented=(k % 3 == 2))
         if k % 4 == 0:
             c["foreign"] = True
         yield c
@@ -361,6 +417,7 @@ def run_impl(case):
     pre_bytes = io.fetch_output()
     pos = len(pre_bytes)
     secs, steps = [], []
+    scopes, base_indent = {}, []
     fsec = None
     for op in case["ops"]:
         if case.get("foreign") and secs:
@@ -377,7 +434,26 @@ def run_impl(case):
                 break
         try:
             if op[0] == "create":
-                secs.append(out.section())
+                base_indent.append(op[1] if len(op) > 1 else 0)
+                if base_indent[-1]:
+                    # the section inherits the indentation the output has when it is created
+                    with out.indent(base_indent[-1]):
+                        secs.append(out.section())
+                else:
+                    secs.append(out.section())
+            elif op[0] == "indent":
+                # from now on the section has another indentation: the scope entered before is left, a new one
+                # entered (section.indent(n), or section.increment_indent(d) reaching the same n)
+                sec = secs[op[1]]
+                if op[1] in scopes:
+                    scopes.pop(op[1]).__exit__(None, None, None)
+                cur = base_indent[op[1]]      # leaving the scope restored the indentation the section was created with
+                if op[3] == "inc" and op[2] >= cur:
+                    scope = sec.increment_indent(op[2] - cur)
+                else:
+                    scope = sec.indent(op[2])
+                scope.__enter__()
+                scopes[op[1]] = scope
             elif op[0] == "write":
                 secs[op[1]].write_line("\n".join(op[2]))
             elif op[0] == "overwrite":
@@ -405,7 +481,9 @@ def run_impl(case):
 
 def _op_json(op):
     if op[0] == "create":
-        return {"op": "create"}
+        return {"op": "create", "indent": op[1] if len(op) > 1 else 0}
+    if op[0] == "indent":
+        return {"op": "indent", "i": op[1], "n": op[2]}
     if op[0] in ("write", "overwrite"):
         return {"op": op[0], "i": op[1], "lines": op[2]}
     if op[0] == "clear":
@@ -438,7 +516,10 @@ def model_obs(case, answers):
              for s in a["steps"]]
     return {"steps": steps, "screen": _norm_screen(a["screen"]["rows"], a["screen"]["cur"]),
             "lex": a["lex"], "run_agrees": a["run_agrees"], "width_seen": case["width"],
-            "wf": {"wf": a["wf"], "anchored": a["anchored"]}}
+            "wf": {"wf": a["wf"], "anchored": a["anchored"]},
+            # the indentation layer: the base model on the indented history gives the same sections and the same
+            # stream (Props.C15.indent_simulates)
+            "sim": {"state": a["sim_state"], "stream": a["sim_stream"]}}
 
 
 def impl_view(case, obs):
@@ -447,19 +528,32 @@ def impl_view(case, obs):
     # "wf": the hypotheses of the theorems (width >= 1, written lines are text, cursor starts below the rows shown),
     # decided by the model on this very case (Props.C15.wf_decides), must hold on every generated case
     return {"steps": obs["steps"], "screen": obs["screen"], "lex": True, "run_agrees": True,
-            "width_seen": obs["width_seen"], "wf": {"wf": True, "anchored": True}}
+            "width_seen": obs["width_seen"], "wf": {"wf": True, "anchored": True},
+            "sim": {"state": True, "stream": True}}
 
 
 # ------------------------------------------------------------------ oracle
 
-def _spec_apply(contents, op, reported):
-    """the contents the operations ask for (creation order)"""
+def _indented(n, lines):
+    """the lines as a section of indentation `n` shows them: every non-empty line behind `n` blanks, an empty line
+    empty (the rule of Output.write; C11)"""
+    return [(" " * n + l) if l else l for l in lines]
+
+
+def _spec_apply(contents, op, reported, indents=None):
+    """the contents the operations ask for (creation order); `indents`: the indentation each section has now"""
     if op[0] == "create":
         contents.append([])
+        if indents is not None:
+            indents.append(op[1] if len(op) > 1 else 0)
+    elif op[0] == "indent":
+        indents[op[1]] = op[2]
     elif op[0] == "write":
-        contents[op[1]] = contents[op[1]] + list(op[2])
+        n = indents[op[1]] if indents else 0
+        contents[op[1]] = contents[op[1]] + _indented(n, op[2])
     elif op[0] == "overwrite":
-        contents[op[1]] = list(op[2])
+        n = indents[op[1]] if indents else 0
+        contents[op[1]] = _indented(n, op[2])
     elif op[0] == "clear":
         contents[op[1]] = []
     elif op[0] == "clearN":
@@ -481,11 +575,17 @@ def oracle(case, obs):
     if not case["ansi"]:
         want = "".join(l + "\n" for l in case["pre"])
         got = obs["pre_bytes"]
+        pind = []
         for op, st in zip(case["ops"], steps):
             if "error" in st:
                 return "plain output: %s raised %s" % (op[0], st["error"])
+            if op[0] == "create":
+                pind.append(op[1] if len(op) > 1 else 0)
+            elif op[0] == "indent":
+                pind[op[1]] = op[2]
             if op[0] in ("write", "overwrite"):
-                want += "".join(l + "\n" for l in op[2])
+                # appended lines, every non-empty one behind the section's indentation (C11)
+                want += "".join((" " * pind[op[1]] + l if l else l) + "\n" for l in op[2])
             got += st["bytes"]
             if ESC in st["bytes"]:
                 return "plain output: %s wrote a control code: %r" % (op[0], st["bytes"])
@@ -498,13 +598,13 @@ def oracle(case, obs):
     if emu.c != 0:
         return "harness: the anchor is not at column 0"
     above = emu.screen()[:anchor]
-    contents = []
+    contents, indents = [], []
     for k, (op, st) in enumerate(zip(case["ops"], steps)):
         where = "after op %d %s" % (k, _short(op))
         if "error" in st:
             return "%s raised %s" % (_short(op), st["error"])
         reported = st["secs"]
-        _spec_apply(contents, op, reported)
+        _spec_apply(contents, op, reported, indents)
         if len(reported) != len(contents):
             return "%s: %d sections, %d were created" % (where, len(reported), len(contents))
         for i, lines in enumerate(contents):
@@ -532,6 +632,8 @@ def oracle(case, obs):
 
 
 def _short(op):
+    if op[0] == "create":
+        return "create(indent=%d)" % (op[1] if len(op) > 1 else 0)
     if op[0] in ("write", "overwrite"):
         return "%s(%d, lens=%s)" % (op[0], op[1], [len(l) for l in op[2]])
     return "%s(%s)" % (op[0], ",".join(str(x) for x in op[1:]))
@@ -547,6 +649,8 @@ def _shape(case):
     for op in case["ops"]:
         if op[0] in ("write", "overwrite"):
             sh.append((op[0], op[1], tuple(len(l) for l in op[2])))
+        elif op[0] == "create":
+            sh.append(("create", op[1] if len(op) > 1 else 0))
         else:
             sh.append(tuple(op))
     return ("sec", case["width"], case["ansi"], len(case["pre"]), tuple(sh))
@@ -622,6 +726,18 @@ def shrink(case):
         c = dict(case)
         c["pre"] = []
         yield c
+    # no indentation at all, then one section's indentation at a time
+    if any(o[0] == "indent" or (o[0] == "create" and len(o) > 1 and o[1]) for o in ops):
+        c = dict(case)
+        c["ops"] = [["create"] if o[0] == "create" else o for o in ops if o[0] != "indent"]
+        yield c
+        for j, o in enumerate(ops):
+            if o[0] == "create" and len(o) > 1 and o[1]:
+                for n in (0, 1):
+                    if n < o[1]:
+                        c = dict(case)
+                        c["ops"] = ops[:j] + [["create", n]] + ops[j + 1:]
+                        yield c
     # cut the tail first, then single operations
     for n in (len(ops) // 2, len(ops) - 1):
         if 0 < n < len(ops):
@@ -694,3 +810,15 @@ def neighbours(case):
             c = dict(case)
             c["width"] = w2
             yield c
+    # the same history with the sections created inside indentation scopes / without any indentation
+    for prof in PROFILES + [(0, 0, 0), (1, 1, 1)]:
+        c = dict(case)
+        t, new = 0, []
+        for o in ops:
+            if o[0] == "create":
+                new.append(["create", prof[t % 3]])
+                t += 1
+            else:
+                new.append(o)
+        c["ops"] = new
+        yield c
